@@ -98,4 +98,15 @@ theorem marked_element_id (file : Str) (n : Nat) (tag : Str) (attrs : List Attr)
 example : assignSeenAttrs (S "p") [.elem (S "i") [(S "v-once", [])] [], .elem (S "b") [(S "v-once", [])] []] =
     [.elem (S "i") [(S "v-once", []), (S "v-once-id", S "p#1")] [], .elem (S "b") [(S "v-once", []), (S "v-once-id", S "p#2")] []] := by rfl
 
+/-- (6) the rule also holds for an element that is a `v-else-if` / `v-else` member of a chain (it is reached only when the chain selects it):
+    selected again after it was rendered once, it is skipped and the rest of the list goes on; the pinned code emitted it every time -/
+theorem once_on_chain_member (st : St) (a : List Attr) (h1 : hasAttr a (S "v-once") = true) (h2 : hasAttr a (S "v-for") = false) :
+    (getAttr a (S "v-once-id") ∈ st.seen → onceGate st a = none) ∧
+    (getAttr a (S "v-once-id") ∉ st.seen → onceGate st a = some { st with seen := st.seen ++ [getAttr a (S "v-once-id")] }) := by
+  constructor
+  · intro hm
+    simp [onceGate, h1, h2, hm]
+  · intro hm
+    simp [onceGate, h1, h2, hm]
+
 end Vuego.Props.C16
